@@ -24,7 +24,7 @@ group is bounded to its field (7, 0xFFFF, 0x1FFF, 0xFFFF, 0xFFFF) by a compariso
 """
 CLAUSES = ['a: encoder/decoder field tables agree (PlainHdr, ProtoHdr, StatusReport)', 'b: decoder panic surface discharged (headers, pairing codes, BDX, check-in, BTP, BLE advertisements, mDNS TXT, certificate conversion, X.509/CSR/CD decoders)',
            'c: check digit / prefix / length refusals guard acceptance', 'd: utctime argument bounded at every call site',
-           'e: every digit group of the manual code is bounded to its field width']
+           'e: every digit group of the manual code is bounded to its field width', 'f: mDNS TXT pairs split at the first `=` only']
 NOT_DECIDED = ['equality of decoded and encoded field values', 'base-38 and bit-packing arithmetic', 'parsing inside the external `der` and `domain` crates', 'equality of the X.509 form with the TLV form of a certificate']
 MIN_OBLIGATIONS = {'q': 70, 'd': 70, 'r': 70}
 
@@ -186,6 +186,26 @@ def check(R):
                 return e
             R.cut_from('P2', pp, t.d['to'], 'accept the manual code', oks, f'digit group ({off},{ln}) <= {bound:#x}', edges)
         R.expect('P5', pp.fn, 'all five digit groups of the layout are read', seen == set(BOUND) or seen == set(BOUND) - {(10, 5), (15, 5)}, f'{sorted(seen)}', f'groups read: {sorted(seen)}')
+
+    # ---- f --------------------------------------------------------------------
+    with R.clause('f'):
+        # mDNS TXT pairs decode to what was encoded: `key=value` splits at the FIRST '=' and the value runs to the end of the string
+        # (RFC 6763 6.4 allows '=' inside a value: `PI=dGVzdA==`). Accepted idioms: find('=') + `[..eq]` / `[eq + 1..]`, split_once, splitn(2, ..)
+        tx = R.body('<transport::network::mdns::builtin::query::MdnsTxt as core::iter::traits::iterator::Iterator>::next')
+        cs_ = tx.calls_summary
+        S_ = 'core::str::<impl str>::'
+        wrong = sorted(c for c in cs_ if c in (S_ + 'split', S_ + 'rsplit', S_ + 'rfind', S_ + 'rsplit_once', S_ + 'split_terminator', S_ + 'rsplitn'))
+        if wrong:
+            R.fail('P10', tx.fn, 'a TXT pair is split at the first `=` only; the value runs to the end of the string',
+                   f'{[c.split("::")[-1] for c in wrong]} splits at every / the last `=`: a value that contains `=` is cut short', f'{tx.file}:{tx.line}')
+        elif S_ + 'split_once' in cs_ or S_ + 'splitn' in cs_:
+            R.ok('P10', tx.fn, 'a TXT pair is split at the first `=` only; the value runs to the end of the string', 'split_once / splitn')
+        elif S_ + 'find' in cs_:
+            aggs = {st[1].get('adt') for i, j, st in tx.stmts() if st[1].get('op') == 'agg' and str(st[1].get('adt', '')).startswith('core::ops::range::')}
+            R.expect('P10', tx.fn, 'a TXT pair is split at the first `=` only; the value runs to the end of the string', 'core::ops::range::RangeFrom' in aggs and 'core::ops::range::RangeTo' in aggs,
+                     'find(=); key = s[..eq], value = s[eq + 1..]', f'range forms used: {sorted(aggs)}: the value is not the open-ended remainder')
+        else:
+            raise AnchorLost('MdnsTxt::next: the key/value split uses an idiom this rule does not know')
 
     # ---- c --------------------------------------------------------------------
     with R.clause('c'):
